@@ -1,6 +1,7 @@
 package batch
 
 import (
+	"errors"
 	"fmt"
 	"slices"
 	"strconv"
@@ -383,6 +384,9 @@ func (c *converter) ForEnd() error {
 }
 
 func (c *converter) Break() error {
+	if len(c.endLabels) == 0 {
+		return errors.New("break is only supported within a for-loop")
+	}
 	c.addLine(fmt.Sprintf("goto %s", c.mustCurrentEndLabel()))
 	return nil
 }
